@@ -293,18 +293,30 @@ func (fc *forkChain) setHead(bi *blockInfo) {
 // drainHeadEvents returns once the pool's event loop has taken every head event posted so far AND
 // handed the corresponding reset requests to its reorg scheduler: a sentinel event without a block
 // (which the loop ignores) is queued behind them, and the loop handles events strictly in order.
-func (fc *forkChain) drainHeadEvents() {
+func (fc *forkChain) drainHeadEvents() { fc.drainHeadEventsWithin(0) }
+
+// drainHeadEventsWithin is drainHeadEvents with a bound (0 = none): while a reset is held at the
+// gate it owns pool.mu, and the pool's event loop also takes pool.mu for its periodic statistics /
+// eviction ticks - on a starved machine such a tick can fall into the gated window and the loop
+// then cannot take the queued head events until the gate opens. The caller opens the gate when
+// this returns false.
+func (fc *forkChain) drainHeadEventsWithin(limit time.Duration) bool {
 	fc.feed.Send(core.ChainHeadEvent{})
 	fc.mu.RLock()
 	ch := fc.sub
 	fc.mu.RUnlock()
+	start := time.Now()
 	for i := 0; len(ch) > 0; i++ {
 		if i < 200 {
 			runtime.Gosched()
 		} else {
 			time.Sleep(20 * time.Microsecond)
 		}
+		if limit > 0 && i%1000 == 999 && time.Since(start) > limit {
+			return false
+		}
 	}
+	return true
 }
 
 // quiesce waits until everything submitted or posted so far has been worked off by the pool.
